@@ -12,6 +12,8 @@ pub mod lambda_reporter;
 pub mod metrics_histogram;
 mod reporter;
 mod unit;
+#[cfg(all(metrique_verif, feature = "metrics-rs-024"))]
+pub mod verif;
 
 pub use accumulator::{MetricAccumulatorEntry, MetricRecorder, SharedRecorder};
 pub use generic::{MetricsRsVersion, ParametricRecorder};
